@@ -55,7 +55,7 @@ def _is_fresh_expr(e):
         name = f.id if isinstance(f, ast.Name) else (f.attr if isinstance(f, ast.Attribute) else None)
         if name in FRESH_CALLS:
             return True
-        if name and name[:1].isupper() and isinstance(f, ast.Name):   # constructor call Name(...)
+        if name and name.lstrip("_")[:1].isupper() and isinstance(f, ast.Name):   # constructor call Name(...) / _Private(...)
             return True
     return False
 
